@@ -178,16 +178,26 @@ Proof.
     destruct s as [|y s]; [reflexivity|]. destruct (y =? x) eqn:Eyx; cbn [andb]; [apply IH | reflexivity].
 Qed.
 
-(* a value without % and _ in front of a pattern, no ESCAPE clause *)
+(* a value without % and _ (and without the escape character in force) in front of a pattern *)
+Lemma like_plain_esc : forall esc v p s,
+  mem_char 37 v = false -> mem_char 95 v = false -> existsb (is_esc esc) v = false ->
+  like_match esc (v ++ p) s =
+  match strip_prefix v s with Some r => like_match esc p r | None => false end.
+Proof.
+  induction v as [|x v IH]; intros p s H37 H95 He; [reflexivity|].
+  cbn [mem_char existsb] in H37, H95, He. apply orb_false_iff in H37, H95, He.
+  destruct H37 as [E2 H37], H95 as [E3 H95], He as [E1 He].
+  cbn [app like_match strip_prefix]. rewrite E1, E2, E3.
+  destruct s as [|y s]; [reflexivity|]. destruct (y =? x) eqn:Eyx; cbn [andb]; [apply IH; assumption | reflexivity].
+Qed.
+
 Lemma like_plain : forall v p s,
   mem_char 37 v = false -> mem_char 95 v = false ->
   like_match None (v ++ p) s =
   match strip_prefix v s with Some r => like_match None p r | None => false end.
 Proof.
-  induction v as [|x v IH]; intros p s H37 H95; [reflexivity|].
-  cbn [mem_char existsb] in H37, H95. apply orb_false_iff in H37, H95. destruct H37 as [E2 H37], H95 as [E3 H95].
-  cbn [app like_match is_esc strip_prefix]. rewrite E2, E3.
-  destruct s as [|y s]; [reflexivity|]. destruct (y =? x) eqn:Eyx; cbn [andb]; [apply IH; assumption | reflexivity].
+  intros v p s H1 H2. apply like_plain_esc; try assumption.
+  clear. induction v as [|x v IH]; [reflexivity | exact IH].
 Qed.
 
 Lemma like_percent : forall esc p s, is_esc esc 37 = false ->
